@@ -142,6 +142,27 @@ package seat_manager
 //@             ==> (flagAt(sm, s) <==> between(sm, sm.DealerSeatID, sm.BBSeatID, s)))
 //@   ensures short-deck-next-dealer: err == nil && sm.Rule == Rule_ShortDeck ==> sm.DealerSeatID != -1 && firstActiveCW(sm, old(sm.DealerSeatID), sm.DealerSeatID) && sm.SBSeatID == -1 && sm.BBSeatID == -1
 
+// ---- lemma over the contracts: a waiting newcomer's wait is bounded (C05) -----------------------------------
+// the environment between two rotations (assumed: it is what the other mutators' proved contracts allow —
+// they keep SmWF, never write the button seats, and leave the observed player's seat alone)
+//@ func (*seatManager).verifEnv
+//@   trusted ghost environment step of the wait-bound lemma: other players come, go, bust and re-buy; the invariant, the button seats and seat s are kept
+//@   config M 2..10 : sm.MaxSeat = M, len(sm.SeatData) = M
+//@   requires SmWF(sm) && inRange(sm, s)
+//@   modifies forall(t, 0, sm.MaxSeat, sm.SeatData[t]), family("seat_manager.SeatPlayer.IsIn"), family("seat_manager.SeatPlayer.HasChips"),
+//@            family("seat_manager.SeatPlayer.IsBetweenDealerBB"), family("seat_manager.SeatPlayer.ID")
+//@   ensures kept: SmWF(sm) && unchanged(sm.SeatData[s]) && (old(occ(sm, s)) ==> unchanged(sm.SeatData[s].IsIn) && unchanged(sm.SeatData[s].HasChips) && unchanged(sm.SeatData[s].IsBetweenDealerBB))
+
+//@ func (*seatManager).verifLemmaWaitBound
+//@   property C05
+//@   returns dealtIn
+//@   config M 3..10 : sm.MaxSeat = M, len(sm.SeatData) = M
+//@   requires SmWF(sm) && sm.IsInit && held(sm.mu) && sm.Rule == Rule_Default && inRange(sm, s) && Live(sm, s) && sm.MaxSeat >= 3     // no seat lies strictly between two others at a two-seat table
+//@   requires inRange(sm, sm.DealerSeatID) && inRange(sm, sm.BBSeatID) && between(sm, sm.DealerSeatID, sm.BBSeatID, s)
+//@   modifies sm.DealerSeatID, sm.SBSeatID, sm.BBSeatID, forall(t, 0, sm.MaxSeat, sm.SeatData[t]), family("seat_manager.SeatPlayer.IsIn"), family("seat_manager.SeatPlayer.HasChips"),
+//@            family("seat_manager.SeatPlayer.IsBetweenDealerBB"), family("seat_manager.SeatPlayer.ID")
+//@   ensures waits-at-most-two-more-hands: dealtIn
+
 // ---- lookups ----------------------------------------------------------------------------------
 
 //@ spec seatedAt(sm, id, s) = occ(sm, s) && sm.SeatData[s].ID == id
